@@ -9,7 +9,7 @@ for f in sorted(glob.glob(f"/verif/seeded/*/meta.json")):
   m = json.load(open(f))
   if m.get("property") == pid:
     prev.append(" ".join(str(m.get("summary", "")).split())[:400] + " [files: " + ", ".join(m.get("files", [])) + "]")
-wt = f"/tmp/wt_{pid}b"
+wt = f"/tmp/wt_{pid}" + (sys.argv[2] if len(sys.argv) > 2 else "b")
 out = t.format(WT=wt, PID=pid, TITLE=x["title"], STATEMENT=x["statement"], QUANT=x["quantifier"]["text"])
 if prev:
   out = out.replace("Prefer subtle, semantically meaningful changes over crashes.", "Prefer subtle, semantically meaningful changes over crashes.\nSomeone else has already produced the following change(s) for this property; yours must use a DIFFERENT mechanism, a different function and preferably a different part of the property's statement or quantifier:\n  - " + "\n  - ".join(prev))
